@@ -617,6 +617,19 @@ func BuildColumnName(expr sqlparser.Expr) (string, string, error) {
 	return qualifier, columnName.Name.String(), nil
 }
 
+// tablePath is the path a FROM selector starts with: what is left of it
+// without a top-level function (mix=>data) and without its index, slice and
+// pipe steps (data[0:2]), i.e. the name a column may be qualified with
+func tablePath(selector string) string {
+	if bracket := strings.IndexAny(selector, "[{"); bracket >= 0 {
+		selector = selector[:bracket]
+	}
+	if fn := strings.Index(selector, "=>"); fn >= 0 {
+		selector = selector[fn+2:]
+	}
+	return strings.TrimSuffix(selector, ".")
+}
+
 func BuildFromAliasedTable(query *Query, as string, expr sqlparser.SimpleTableExpr) error {
 	switch expr := expr.(type) {
 	case sqlparser.TableName:
@@ -631,7 +644,7 @@ func BuildFromAliasedTable(query *Query, as string, expr sqlparser.SimpleTableEx
 			}
 			if len(as) == 0 {
 				query.ident = strings.SplitN(tableName, ".", 2)[0]
-				query.table = tableName
+				query.table = tablePath(tableName)
 			} else {
 				query.ident = as
 				query.alias = as
